@@ -356,6 +356,7 @@ func runC15(e *Engine, r *Report) {
 	ruleChunkDescribesSnapshot(e, r)
 	ruleChunkRecordSources(e, r)
 	ruleChunkLocksStable(e, r)
+	ruleStreamCloseOnSuccess(e, r)
 	// chunks travel in frames whose payload checksum gates delivery (decided by C13's rule set)
 	borrow(e, r, "C13", "VAL-frame")
 	borrow(e, r, "C16", "ERR-refusal")
